@@ -254,7 +254,7 @@ def explore(pid, conf, binpath, seed, tier, workdir, only=None, extra_env=None):
     shutil.rmtree(outdir, ignore_errors=True)
     os.makedirs(scratch, exist_ok=True)
     rc, out = run_harness(binpath, pid, seed, tier, outdir, scratch, only=only, extra_env=extra_env,
-                          timeout=conf.get("harness_timeout", 1500))
+                          timeout=conf.get("harness_timeout", 900 if tier == "quick" else 3600))
     subprocess.run(["chmod", "-R", "u+rwx", scratch], stderr=subprocess.DEVNULL)
     shutil.rmtree(scratch, ignore_errors=True)
     if rc != 0:
